@@ -154,7 +154,7 @@ def finding_matches(f, rec) -> bool:
     if f.get("obligation_re"):
         if not re.search(f["obligation_re"], rec["oid"]):
             return False
-    elif f["obligation"] != rec["oid"]:
+    elif rec["oid"] != f["obligation"] and rec["oid"] not in f.get("obligations", ()):  # "obligations": further ids explained by the same defect
         return False
     hay = (rec.get("note") or "") + " || " + " ; ".join(rec.get("path") or ())
     pat = f.get("where")
